@@ -6,7 +6,7 @@ package engine
 //
 //   - calculate{Exponential,Linear,Step,Ebbinghaus}Decay are called directly on
 //     the domain in which the wrappers call them (age > 0, half-life > 0).
-//   - calculateTimeDecayModel / calculateTimeDecay read time.Now(); the case
+//   - calculateTimeDecayModel reads time.Now(); the case
 //     carries an *age*, created_at is computed as now-age at run time and the
 //     result is bracketed between the reference at the clock value read before
 //     and after the calls (never predicted).
@@ -274,11 +274,11 @@ type c15WrapObs struct {
 	created float64
 	count   int
 	f       float64
-	legacy  float64
 }
 
-// c15LawWrapper checks calculateTimeDecayModel (and the legacy
-// calculateTimeDecay) with the wall clock bracketed.
+// c15LawWrapper checks calculateTimeDecayModel with the wall clock bracketed. (The legacy helper
+// calculateTimeDecay has no caller in the code base and is not referenced: a harness that names dead
+// code stops compiling when a maintainer removes it.)
 func c15LawWrapper(c c15LawCase) (msg string, ticked bool) {
 	counts := c.Counts
 	if len(counts) == 0 {
@@ -293,8 +293,7 @@ func c15LawWrapper(c c15LawCase) (msg string, ticked bool) {
 			created := float64(t0) - a
 			for _, k := range counts {
 				obs = append(obs, c15WrapObs{created: created, count: k,
-					f:      calculateTimeDecayModel(created, c.H, c.Model, k),
-					legacy: calculateTimeDecay(created, c.H)})
+					f: calculateTimeDecayModel(created, c.H, c.Model, k)})
 			}
 		}
 		t1 = time.Now().Unix()
@@ -310,7 +309,7 @@ func c15LawWrapper(c c15LawCase) (msg string, ticked bool) {
 			name  string
 			v     float64
 			model string
-		}{{"calculateTimeDecayModel", o.f, c.Model}, {"calculateTimeDecay", o.legacy, "exponential"}} {
+		}{{"calculateTimeDecayModel", o.f, c.Model}} {
 			desc := c15Sprintf("%s(created=now-%g, half-life=%g, model=%q, count=%d)", p.name, ageLo, c.H, c.Model, o.count)
 			if !c15Unit(p.v) {
 				return c15Sprintf("%s = %v, not in [0,1]", desc, p.v), ticked
@@ -388,7 +387,7 @@ func c15RunLaw(c c15LawCase) (msg string, ticked bool) {
 
 func TestVerif_C15_laws(t *testing.T) {
 	c15Silence()
-	col := verifkit.New("C15", "laws", "rapid-generated (model name known/unknown/empty, half-life <=0/tiny/normal/huge, 2-6 ages negative/0/tiny/mid/huge/multiples of the half-life, 1-4 access counts incl. negative): the four calculate*Decay helpers on age>0,h>0 (bounds, monotone in age, named points, reference formula, Ebbinghaus monotone in count) and calculateTimeDecayModel/calculateTimeDecay with created=now-age bracketed by the clock; non-trivial = half-life > 0 and at least one generated age in (0, 64 half-lives] (decay neither disabled nor saturated)")
+	col := verifkit.New("C15", "laws", "rapid-generated (model name known/unknown/empty, half-life <=0/tiny/normal/huge, 2-6 ages negative/0/tiny/mid/huge/multiples of the half-life, 1-4 access counts incl. negative): the four calculate*Decay helpers on age>0,h>0 (bounds, monotone in age, named points, reference formula, Ebbinghaus monotone in count) and calculateTimeDecayModel with created=now-age bracketed by the clock; non-trivial = half-life > 0 and at least one generated age in (0, 64 half-lives] (decay neither disabled nor saturated)")
 	defer col.Finish()
 	if p := verifkit.ReplayPath(); p != "" {
 		if verifkit.ReplayPart(p) != "laws" {
